@@ -79,6 +79,7 @@ def main():
             lines = [l for l in out.splitlines() if l.startswith('  ') or 'HARNESS' in l]
             det[c] = {'exit': code, 'detected': code == 1, 'wall_s': round(time.time() - t0, 1), 'first': (lines[0][:400] if lines else '')}
         res['checks'] = det
+        res['checks_to_run'] = checks
         res['detected_by'] = [c for c, d in det.items() if d['detected']]
         if a.note and os.path.exists(a.note):
             res['what_it_needs'] = open(a.note).read().strip()
